@@ -262,8 +262,9 @@ class Env:
         raise HarnessError('origin could not deliver %d bytes to squid (stuck at %d)' % (len(data), off))
 
     def wait_a_bit(self):
-        if self.async_io:
-            time.sleep(0.003)
+        # real-time patience: needed for aufs/diskd completions; for the synchronous stores it only bridges the rare
+        # moment in which loopback delivery lags behind squid's idle report on an overloaded machine
+        time.sleep(0.003 if self.async_io else 0.002)
 
     def client(self, rcvbuf=None):
         s = socket.socket(socket.AF_INET, socket.SOCK_STREAM)
@@ -275,7 +276,7 @@ class Env:
     def drain(self, c, method='GET', limit=6000):
         """Run the world until the client's response is complete / the connection ended / nothing moves."""
         idle = 0
-        patience = 400 if self.async_io else 3
+        patience = 400 if self.async_io else 30
         for _ in range(limit):
             self.sq.settle(1)
             moved = self.service_origin() > 0
@@ -298,7 +299,7 @@ class Env:
     def drain_all(self, conns, limit=8000):
         """Let several clients read to the end together (a stalled client can hold back the others)."""
         idle = 0
-        patience = 400 if self.async_io else 3
+        patience = 400 if self.async_io else 30
         live = [c for c in conns if c is not None]
         for _ in range(limit):
             self.sq.settle(1)
@@ -688,7 +689,7 @@ def worker_factory(ctx, tier, t_end):
                 for s in sig:
                     cls = '%s:%s' % (part, re.sub(r'v\d+', 'v', s.split(':', 1)[1]) if ':' in s else s)
                     res['outcomes'][cls] = res['outcomes'].get(cls, 0) + 1
-                if len(res['samples']) < 2 and idx % 37 == 5:
+                if idx == 5 and not any(q['part'] == part for q in res['samples']):
                     res['samples'].append({'store': store, 'part': part, 'exec': x, 'observed': sig})
                 if hp:
                     res['crashes'].append(('%s:%s' % (store, part), '; '.join(hp)[:2500], {'store': store, 'part': part, 'execs': unit['execs'][:idx + 1]}))
@@ -743,6 +744,16 @@ def build(ctx):
     return waited
 
 
+def pick_samples(samples):
+    out, seen = [], set()
+    for want in ('sched', 'hist', 'evict', 'sweep'):
+        for q in samples:
+            if q['part'] == want and (q['store'], want) not in seen and len([o for o in out if o['part'] == want]) < 2:
+                seen.add((q['store'], want))
+                out.append(q)
+    return out[:8]
+
+
 def run(ctx):
     build_s = build(ctx)
     units = units_for(ctx.tier)
@@ -761,7 +772,7 @@ def run(ctx):
             outcomes[k] = outcomes.get(k, 0) + v
         for k, v in p['logtags'].items():
             logtags[k] = logtags.get(k, 0) + v
-        samples += p['samples'][:1]
+        samples += p['samples']
         vios += p['violations']
         crashes += p['crashes']
         cut += p['units_cut']
@@ -795,7 +806,7 @@ def run(ctx):
              'stores': sorted(set(u['store'] for u in units))}
     cov = {'states': len(states), 'transitions': tot['transitions'], 'traces_validated_against_impl': tot['executions'],
            'executions_planned': planned, 'bound_completed': bound if complete else 'cut by the deadline, see units_cut',
-           'exhaustive': complete, 'samples': samples[:6], 'outcome_classes': outcomes, 'access_log_tags': logtags, 'kicks': tot['kicks'],
+           'exhaustive': complete, 'samples': pick_samples(samples), 'outcome_classes': outcomes, 'access_log_tags': logtags, 'kicks': tot['kicks'],
            'determinism_replays': tot['determinism_replays'], 'units': len(units), 'units_cut': cut[:40], 'clean_hits_checked': hits,
            'build_step_s': round(build_s, 1), 'deterministic': {'mem/shm/rock/ufs': True, 'aufs/diskd': False}}
     return Result(LEVEL, cov, vio, ASSUME, obs)
